@@ -560,6 +560,10 @@ func checkC19(t *testing.T, c C19Case) Verdict {
 		if cfg.prep < 0 {
 			want.PostID = given.PostID
 		}
+		if cfg.exec < 0 {
+			// ... nor whether a batch node without an exec function is runnable at all
+			want.PrepID, want.PostID, want.Executed = given.PrepID, given.PostID, given.Executed
+		}
 	}
 	if m := c19Diff(given, want, "sequence as given"); m != "" {
 		return bad("C19:last-wins", "%s (settings %+v)", m, settings)
